@@ -459,6 +459,8 @@ def string_pieces(t):
     if t.tag == 'const' and isinstance(t[1], (bytes, str)):
         return [t[1] if isinstance(t[1], bytes) else t[1].encode()]
     if t.tag == 'binop' and t[1] == 'Add':
+        if any(strip(x).tag == 'const' and isinstance(strip(x)[1], int) and not isinstance(strip(x)[1], bool) for x in (t[2], t[3])):
+            return [('dec', t)]          # an integer sum rendered into the string (`(MINIMUM + i).to_string()`), not a concatenation
         a, b = string_pieces(t[2]), string_pieces(t[3])
         return a + b if a is not None and b is not None else None
     if t.tag in ('index', 'param', 'cast', 'elem', 'field'):
@@ -574,6 +576,27 @@ def r4(ctx):
                     want_idx = canon(mk_elem(ctx.eng, z[1 + rk[0]]))
             ok = dec and zipped and pieces in ([b'RISTRETTO_MASKING_BASEPOINT_', ('dec', 'idx(range(1,None))')], [b'RISTRETTO_MASKING_BASEPOINT_', ('dec', want_idx)])
             det = '%s with label pieces %s (slot zipped with the degree: %s)' % (c[:120], pieces, zipped)
+        elif not st:
+            # no store: `core::array::from_fn(|i| hash(label(MINIMUM + i)))` -- slot i is what the closure returns for i
+            rt0 = strip(ctx.eng.return_term(mb))
+            if rt0.tag == 'call' and rt0[1].endswith('array::from_fn') and len(rt0[2]) == 1 and strip(rt0[2][0]).tag == 'closure':
+                k0 = T('index', T('const', 'from_fn'))
+                val = ctx.eng.expand(ctx.eng.apply(strip(rt0[2][0]), (k0,)), stop={hf.path} if hf is not None else ())
+                c = canon(val)
+                hcall = strip(val)
+                label = None
+                if hcall.tag == 'call' and hcall[1].endswith('hash_from_bytes_sha3_512') and len(hcall[2]) == 1:
+                    label = hcall[2][0]
+                elif hcall.tag == 'call' and hcall[1].endswith('from_uniform_bytes') and len(hcall[2]) == 1:
+                    hi0 = hasher_inputs(strip(hcall[2][0]))
+                    if hi0 is not None and len(hi0[1]) == 1 and hf is not None and any(callee_name(t2) == hf.path for _, t2 in ctx.calls(mb)):
+                        label = hi0[1][0]
+                pieces = canon_pieces(string_pieces(label)) if label is not None else None
+                scope = [mb] + [c2 for c2 in ctx.facts.reachable_from([mb])]
+                dec = any(callee_decl(t2) == 'std::string::ToString::to_string' or callee_decl(t2).endswith('::new_display') for b_ in scope for _, t2 in ctx.calls(b_))
+                one_plus = {canon(T('binop', 'Add', T('const', 1), k0)), canon(T('binop', 'Add', k0, T('const', 1)))}
+                ok = dec and pieces is not None and len(pieces) == 2 and pieces[0] == b'RISTRETTO_MASKING_BASEPOINT_' and pieces[1][0] == 'dec' and pieces[1][1] in one_plus
+                det = '%s with label pieces %s (array::from_fn: slot i holds the value for i)' % (c[:120], pieces)
         rep.check(ok, 'R-C11-4', 'R-C11-4/blinding-generators', 'generator i = hash_from_bytes_sha3_512("RISTRETTO_MASKING_BASEPOINT_" ++ decimal(i)), i = 1.. zipped with the array slots',
                   'blinding generators are derived as %s' % det, ctx.where(mb))
         # the store may sit in the initialiser itself (a `for` loop) or in a closure it hands to for_each: look in every frame
@@ -670,6 +693,11 @@ def r5(ctx):
     counts = set()
     for b in ctx.facts.fns():
         if b.is_closure and any(st['path'].rsplit('::', 1)[0] == b.parent for st in ctx.facts.statics):
+            # (the array type the initialiser returns spells the evaluated length, however the array is filled)
+            import re as _re
+            m_ = _re.search(r';\s*(\d+)\]$', b.locals[0]['ty'])
+            if m_:
+                counts.add(int(m_.group(1)))
             for blk in b.blocks:
                 for s in blk['stmts']:
                     if s['k'] == 'assign' and s['rv']['k'] == 'repeat':
